@@ -6,7 +6,7 @@ and the record stream for src/checks/c06_stream.cpp.  Every record carries the r
 
   gdl_lite.py <tier> <shard> <nshards>
 """
-import sys, os, struct, json, itertools
+import os, sys, os, struct, json, itertools
 sys.path.insert(0, os.path.dirname(os.path.abspath(__file__)))
 from fontgen import *
 from seeds import tag
@@ -74,10 +74,13 @@ def run_pass(rules, slots, feat):
             if not constraint_holds(rule, slots, i, feat): continue
             # fire: body items are processed left to right; the stream is modified in place
             pos = i
-            for (_, acts) in rule.body:
+            snap = [(q.gid, q.adv, q.shift, q.user, q.user1) for q in slots[i - p:i - p + len(cl)]]      # slot references on the right-hand side name the INPUT slots
+            for bj, (_, acts) in enumerate(rule.body):
                 deleted = False
                 for a in acts:
-                    if a[0] == 'insert':
+                    if a[0] == 'copy':          # the whole slot (glyph and attributes) is copied from the input slot k items away; never used on attached slots
+                        t = slots[pos]; t.gid, t.adv, t.shift, t.user, t.user1 = snap[p + bj + a[1]]
+                    elif a[0] == 'insert':
                         n = S(CLASSES[a[1]][0]); slots.insert(pos, n); pos += 1
                     elif a[0] == 'glyph': slots[pos].gid = CLASSES[a[1]][0]; slots[pos].adv = ADV[slots[pos].gid]
                     elif a[0] == 'subs':
@@ -134,7 +137,8 @@ def compile_rule(rule):
     for (_, acts) in rule.body:
         deleted = False
         for a in acts:
-            if a[0] == 'insert': code += A('INSERT', 'PUT_GLYPH', 0, a[1], 'NEXT')
+            if a[0] == 'copy': code += A('PUT_COPY', a[1] & 0xFF)
+            elif a[0] == 'insert': code += A('INSERT', 'PUT_GLYPH', 0, a[1], 'NEXT')
             elif a[0] == 'glyph': code += A('PUT_GLYPH', 0, a[1])
             elif a[0] == 'subs': code += A('PUT_SUBS', 0, 0, a[1], 0, a[2])
             elif a[0] == 'delete': deleted = True
@@ -296,6 +300,19 @@ def family_programs(tier):
                 test = LRule([], [(IX, [('glyph', OY)])], (0, uk, 0, v))
                 yield dict(kind='stale_user', passes=[dict(rules=[mark]), dict(rules=[dele, ins]), dict(rules=[test])], rtl=0)
                 yield dict(kind='stale_user', passes=[dict(rules=[mark]), dict(rules=[dele]), dict(rules=[ins]), dict(rules=[test])], rtl=0)
+    # slot copies: PUT_COPY from the following / preceding input slot (a swap reads both INPUT slots), optionally followed by an attribute assignment;
+    # a first pass gives 'a' distinctive attributes (values beyond one byte, negative), a last pass tests the second user attribute of the result
+    marks = [LRule([], [(IA, [('user', 300), ('user1', -2), ('adv', 777)])]), LRule([], [(IAB, [('user1', 7)]), (IABCD, [('shift', 25)])]), None]
+    copies = [LRule([], [(IAB, [('copy', 1)]), (IAB, [('copy', -1)])]), LRule([], [(IAB, [('copy', 1)]), (IABCD, [])]), LRule([IAB], [(IABCD, [('copy', -1)])]),
+              LRule([], [(IABCD, []), (IAB, [('copy', -1)])]), LRule([], [(IAB, [('copy', 1), ('user1', 9)]), (IAB, [('copy', -1), ('adv', 300)])]),
+              LRule([], [(IAB, [('copy', 2)]), (IABCD, []), (IAB, [('copy', -2)])]), LRule([], [(IAB, [('copy', 1)]), (IAB, [('copy', 1)]), (IABCD, [('copy', -2)])])]
+    tests = [LRule([], [(IABCD, [('glyph', OZ)])], (0, 'user1', 0, -2)), LRule([], [(IABCD, [('glyph', OZ)])], (0, 'user1', 0, 7)), LRule([], [(IABCD, [('glyph', OZ)])], (0, 'user', 0, 300))]
+    for mi, mark in enumerate(marks):
+        for ci, cp in enumerate(copies):
+            for ti, test in enumerate(tests):
+                ps = ([dict(rules=[mark])] if mark is not None else []) + [dict(rules=[cp])] + ([dict(rules=[test])] if mark is not None else [])
+                if mark is None and ti: continue
+                yield dict(kind='copy', passes=ps, rtl=0, ids=(mi, ci, ti))
     # re-attachment: two marks are attached to a base by one positioning pass, a second positioning pass moves the first mark to the slot before the base;
     # the base must keep (and position) its other mark
     mm = [[0x61, 0x62, 0x6D, 0x6D], [0x62, 0x6D, 0x6D], [0x61, 0x61, 0x62, 0x6D, 0x6D], [0x61, 0x62, 0x6D], [0x61, 0x62, 0x6D, 0x6D, 0x63]]
@@ -355,8 +372,10 @@ def expectation_table(prog, texts):
 def main():
     tier, shard, nshards = sys.argv[1], int(sys.argv[2]), int(sys.argv[3])
     out = sys.stdout.buffer; texts = strings(tier)
+    only = os.environ.get('GDL_KINDS')           # debugging aid: restrict to some kinds (indices stay those of the full enumeration)
     for idx, prog in enumerate(programs(tier)):
         if idx % nshards != shard: continue
+        if only and prog['kind'] not in only.split(','): continue
         try:
             tables = build_tables(compile_font(prog))
         except AssertionError:
